@@ -872,7 +872,51 @@ func c13FillThenInstall(c *Ctx) {
 						ok, why = false, "the row comes from "+calleeDesc(&x.Call)+", which installs it in the table (or may): cells added afterwards are never shown to the table- and column-level add-time callbacks"
 					}
 				case *ssa.Parameter:
-					ok, why = false, "the row is a parameter: it may already be in a table"
+					// an unexported helper that fills the row it is given: every caller must hand it a detached row
+					okP := x.Parent() == fn && fn.Object() != nil && !fn.Object().Exported()
+					idx := -1
+					for i, q := range fn.Params {
+						if q == x {
+							idx = i
+						}
+					}
+					nsites := 0
+					if okP && idx >= 0 {
+						for _, g := range c.ModFuncs("") {
+							eachInstr(g, func(ci ssa.Instruction) {
+								if staticCallee(ci) != fn || len(callCommon(ci).Args) <= idx {
+									return
+								}
+								nsites++
+								for _, av := range phiClosure(callCommon(ci).Args[idx]) {
+									switch y := av.(type) {
+									case *ssa.Alloc:
+									case *ssa.Call:
+										if !detachedCtor(y.Call.StaticCallee(), 0) {
+											okP = false
+										}
+									default:
+										okP = false
+									}
+								}
+								// and not installed before the helper runs
+								eachInstr(g, func(in2 ssa.Instruction) {
+									cal := staticCallee(in2)
+									m, _ := invokeMethod(in2)
+									if cal != addRow && m != "AddRow" {
+										return
+									}
+									cc2 := callCommon(in2)
+									if sameValueSet(cc2.Args[len(cc2.Args)-1], callCommon(ci).Args[idx]) && instrDominates(in2, ci) {
+										okP = false
+									}
+								})
+							})
+						}
+					}
+					if !okP || nsites == 0 {
+						ok, why = false, "the row is a parameter: it may already be in a table"
+					}
 				default:
 					ok, why = false, "origin of the row not recognised: "+v.String()
 				}
